@@ -107,6 +107,23 @@ bool Interp::exec_coll(Interp &I, const Stmt &s)
         wire<CMirror<S_DERR>>(w, e, uid);
         return true;
     }
+    if (s.op == "mesh")
+    {
+        // mesh fn=<spec> <tsd values> <tsd links>: per-key instances that may read each other's results (meshref inside fn)
+        WiredFn f = wired_fn_for(s.kws("fn", "fn2:0"));
+        PortVal d = I.get(a.at(0)), l = I.get(a.at(1));
+        Port<void> out = wire<stdlib::mesh_>(w, f, Port<S_TSD>{w, d.ref}, Port<S_TSD>{w, l.ref});
+        I.env[s.dst] = PortVal{out.template as<S_TSD>().erased(), PT::Other, "tsd"};
+        return true;
+    }
+    if (s.op == "meshref")
+    {
+        // meshref <key port>: the result of the instance for that key (inside a mesh function); pauses the instance until the
+        // referenced instance has been evaluated in this cycle
+        auto dep = stdlib::mesh_ref<TS<Int>>(w, I.pi(a.at(0)));
+        I.env[s.dst] = PortVal{dep.erased(), PT::Int, "ts"};
+        return true;
+    }
     if (s.op == "reduce")
     {
         WiredFn f = wired_fn_for(s.kws("fn", "sum"));
